@@ -2,6 +2,8 @@ import JSight.ErrPos
 import JSight.RenderProofs
 import JSight.ByteLemmas
 import JSight.RenderLine
+import JSight.ValidatePosBytes
+import JSight.ValidatePosShape
 /-!
 # C17 — Errors point at the offending byte and render correctly
 
@@ -14,8 +16,11 @@ import JSight.RenderLine
   no negative repeat count.
 * `C17_line_number`, `C17_line_lf / _cr / _crlf`: the line number shown is 1 + the number of new-line
   symbols before the position; the symbol is LF for LF and CRLF files and CR for CR files.
-Validation-error positions and the exact line/caret text are checked against the code (harness
-`c17-positions`, `render-diff`), see DESIGN.md §4 C17.
+* `C17_validation_errpos` (and `_bytes`, `_pos_inside`, `_pos_is_token_start`, `_accepts_iff_shape`, at the end of
+  the file): the VALIDATION error of the rule-free fragment — code and byte position as the validator computes
+  them — is the first offending value or key of the document in document order, positioned at its first byte.
+The exact line/caret text and the positions of the rest of the schema language are checked against the code
+(harness `c17-positions`, `c17-valpos`, `render-diff`), see DESIGN.md §4 C17.
 -/
 namespace Props.C17
 open JsonScan
@@ -79,5 +84,107 @@ def s (x : String) : List UInt8 := x.toList.map (fun c => UInt8.ofNat c.toNat)
 example : Sim.errPos Cfg.init ((s "[1, x]").map classify) 0 = some 4 := by decide +kernel
 example : Sim.errPos Cfg.init ((s "{\"a\" 1}").map classify) 0 = some 5 := by decide +kernel
 example : (Render.render (s "ab\n  cd").toArray 5).isSome = true := by decide +kernel
+
+/-! ## Validation errors: the reported position is the start of the offending value or key
+
+Model `VPos.validatePos` (`JSight/ValidatePos.lean`): the validator tree of the rule-free fragment (scalars with an
+arbitrary literal validator, `any`, arrays with the last-element rule, objects with optional keys) WITH
+alternatives per position — any number of scalar alternatives next to at most one container: nullable containers,
+`or` / type lists of scalars, `@obj | @str` — fed with the scanner's lexical events and their spans; every error
+carries the code and the index the Go code gives it (`lex.Begin()` of the lexeme being fed, the remembered key
+lexeme for an unknown key). As coded in `Tree.FeedLeaves`, a failing alternative is dropped silently while another
+one survives; when all live alternatives fail on one lexeme the error is the alternative's own if exactly one was
+alive and `ErrOrRuleSetValidation` (204) at that lexeme otherwise — so the alternative that got furthest is reported.
+Spec `VPos.firstOffence`: a function of schema × document TREE (with layout) — the first value or key, in document
+order, that has no counterpart / the wrong kind / is rejected by every literal validator of its position, and the
+byte offset of its first byte. A missing required key has no offending token: the spec (as the code) reports it when
+the object closes, at the first byte of the object that lacks the key; the property text does not define that case. -/
+section validation
+open VPos
+
+/-- **C17, validation error position (any alphabet).** For every schema of the fragment, every document tree —
+any depth, width and layout — embedded anywhere in a source text, and any literal-validator semantics, the validator
+fed with the tree's lexical events returns exactly the spec's first offence: same code, and the offset of the first
+byte of the offending value or key (or acceptance when there is none; never `stuck`). -/
+theorem C17_validation_errpos {α L : Type} (p : P α L) (sy : Sym α) (s : S L) (d : T α) (hd : d.TokNE)
+    (pre post : List α) :
+    validatePos p s (pre ++ (d.render sy ++ post)) (evsAt pre.length d)
+      = Res.ofSpec (firstOffence p s pre.length d) :=
+  VPos.validatePos_render p sy s d hd pre post
+
+/-- **C17, validation error position on bytes, scanner included.** For every JSON document — a tree of scanner
+tokens rendered with arbitrary blanks, blanks before and after — the scanner model followed by the validator
+(`Schema.validate`) returns the spec's first offence at its byte offset in the document. -/
+theorem C17_validation_errpos_bytes {L : Type} (p : P UInt8 L) (s : S L) (d : T UInt8)
+    (hv : (toJA classify d).Valid) (ws0 ws1 : List UInt8) (h0 : IsWs (ws0.map classify)) (h1 : IsWs (ws1.map classify)) :
+    validateBytes p s (ws0 ++ (d.render byteSym ++ ws1)) = .ok (Res.ofSpec (firstOffence p s ws0.length d)) :=
+  VPos.validateBytes_tree p s d hv ws0 ws1 h0 h1
+
+/-- the reported position lies inside the document -/
+theorem C17_validation_pos_inside {α L : Type} (p : P α L) (sy : Sym α) (s : S L) (d : T α) (hd : d.TokNE)
+    (pre post : List α) (c q : Nat)
+    (h : validatePos p s (pre ++ (d.render sy ++ post)) (evsAt pre.length d) = .rej c q) :
+    pre.length ≤ q ∧ q < pre.length + (d.render sy).length := by
+  rw [C17_validation_errpos p sy s d hd, VPos.ofSpec_rej] at h
+  rw [VPos.render_length]
+  exact VPos.starts_inside d hd _ q (VPos.offence_starts p s d _ c q h)
+
+/-- the reported position is the begin offset of a lexeme that opens a value (literal, array, object) or a key
+of the document: it is one of the tree's token starts, and these are exactly the begin offsets of the
+literal-begin / array-begin / object-begin / key-begin events -/
+theorem C17_validation_pos_is_token_start {α L : Type} (p : P α L) (sy : Sym α) (s : S L) (d : T α) (hd : d.TokNE)
+    (pre post : List α) (c q : Nat)
+    (h : validatePos p s (pre ++ (d.render sy ++ post)) (evsAt pre.length d) = .rej c q) :
+    q ∈ starts pre.length d ∧ starts pre.length d = (evsAt pre.length d).filterMap tokStart := by
+  rw [C17_validation_errpos p sy s d hd, VPos.ofSpec_rej] at h
+  exact ⟨VPos.offence_starts p s d _ c q h, VPos.starts_eq d _⟩
+
+/-- consistency with C01: the position-carrying validator accepts exactly the documents that have the schema's
+shape (`VN.shape`, the spec of `C01_with_alternatives`; layout stripped, keys decoded) -/
+theorem C17_validation_accepts_iff_shape {α L : Type} (p : P α L) (sy : Sym α) (s : S L) (d : T α) (hd : d.TokNE)
+    (pre post : List α) :
+    validatePos p s (pre ++ (d.render sy ++ post)) (evsAt pre.length d) = .acc
+      ↔ VN.shape (litOKof p) (toVN s) (strip p.unq d) = true := by
+  rw [C17_validation_errpos p sy s d hd, VPos.ofSpec_acc, ← VPos.shape_value p s d pre.length]
+  cases firstOffence p s pre.length d <;> simp
+
+/-! Non-vacuity: schema `{"a": @one | @str, "b": [true]}` with `b` optional and nullable; literal validator =
+"same first byte" (code 210 otherwise; `110` = `n` stands for the null literal of the nullable array). Document ` {"a": 1, "b" : [true, "x"]}`: the second element `"x"` (offset 23) is the
+first offence. -/
+def exP : P UInt8 UInt8 :=
+  { litErr := fun l tok => if tok.head? == some l then none else some 210
+    unq := fun k => String.ofList ((k.drop 1).dropLast.map fun b => Char.ofNat b.toNat) }
+def exS : S UInt8 := .obj [] [("a", true, .lits [49, 34]), ("b", false, .arr [110] [.lits [116]])]
+def exD : T UInt8 :=
+  .obj [] [([], [34, 97, 34], [], [32], .scalar [49], []),
+           ([32], [34, 98, 34], [32], [32], .arr [] [([], .scalar [116, 114, 117, 101], []), ([32], .scalar [34, 120, 34], [])], [])]
+
+example : exD.render byteSym = s "{\"a\": 1, \"b\" : [true, \"x\"]}" := by decide +kernel
+def okIs (x : Except ErrS Res) (r : Res) : Bool := match x with | .ok r' => r' == r | .error _ => false
+example : okIs (validateBytes exP exS (s " {\"a\": 1, \"b\" : [true, \"x\"]}")) (.rej 210 23) = true := by decide +kernel
+example : firstOffence exP exS 1 exD = some (210, 23) := by decide +kernel
+example : okIs (validateBytes exP exS (s "{\"b\":null}")) (.rej 205 0) = true := by decide +kernel
+example : okIs (validateBytes exP exS (s "{\"a\":1,\"b\":{}}")) (.rej 204 11) = true := by decide +kernel
+example : okIs (validateBytes exP exS (s "{\"a\":1,\"c\":{}}")) (.rej 206 7) = true := by decide +kernel
+example : okIs (validateBytes exP exS (s "{\"a\":1,\"b\":[ true,true ]}")) .acc = true := by decide +kernel
+example : okIs (validateBytes exP exS (s "{\"a\":\"s\",\"b\":null}")) .acc = true := by decide +kernel
+example : okIs (validateBytes exP exS (s "{\"a\":true}")) (.rej 204 5) = true := by decide +kernel
+example : okIs (validateBytes exP exS (s "{\"a\":[]}")) (.rej 204 5) = true := by decide +kernel
+example : okIs (validateBytes exP exS (s "{\"a\":1,\"b\":7}")) (.rej 210 11) = true := by decide +kernel
+
+/-- the hypotheses of `C17_validation_errpos_bytes` are met by a concrete document -/
+example : (toJA classify exD).Valid := by
+  have e : toJA classify exD = .obj [] [([], [.quote, .la, .quote], [], [.sp], .scalar [.d19], []),
+      ([.sp], [.quote, .lb, .quote], [.sp], [.sp],
+        .arr [] [([], .scalar [.lt, .lr, .lu, .le], []), ([.sp], .scalar [.quote, .other, .quote], [])], [])] := by
+    simp [exD, toJA, toJAItems, toJAMembers]; decide
+  rw [e]
+  have k1 : IsKey [.quote, .la, .quote] := string_isKey [.la] (.plain _ _ rfl .nil)
+  have k2 : IsKey [.quote, .lb, .quote] := string_isKey [.lb] (.plain _ _ rfl .nil)
+  have n1 : IsScalar [.d19] := ⟨.d19, [], .d1, false, .d1, rfl, rfl, rfl, rfl⟩
+  have s1 : IsScalar [.quote, .other, .quote] := string_isScalar [.other] (.plain _ _ rfl .nil)
+  simp [JA.Valid, ValidMembers, ValidItems, IsWs, Cls.isWs, k1, k2, n1, s1, true_isScalar]
+
+end validation
 
 end Props.C17
